@@ -56,6 +56,10 @@ def out_cols(x, rels, ty):
         t = ty if a[0] == "?type" else a[0]
         l, r = out_cols(a[2], rels, ty), out_cols(a[3], rels, ty)
         return l if t in ("semi", "anti") else l + r
+    if op == "hashjoin":
+        t = ty if a[0] == "?type" else a[0]
+        l, r = out_cols(a[4], rels, ty), out_cols(a[5], rels, ty)
+        return l if t in ("semi", "anti") else l + r
     return []
 
 
@@ -79,6 +83,10 @@ def scopes_of(x, rels, ty, sc):
         note(a[0], out_cols(a[1], rels, ty))
     elif op == "join":
         note(a[1], out_cols(a[2], rels, ty) + out_cols(a[3], rels, ty))
+    elif op == "hashjoin":
+        note(a[1], out_cols(a[4], rels, ty) + out_cols(a[5], rels, ty))
+        note(a[2], out_cols(a[4], rels, ty))         # left keys: columns of the left input only
+        note(a[3], out_cols(a[5], rels, ty))
     for y in a:
         scopes_of(y, rels, ty, sc)
 
@@ -134,10 +142,47 @@ def instantiate(rng, name, lhs, rhs, conds):
     if ty:
         jsub["?type"] = ty
         env.append(("?type", f'MLit "{ty}"'))
+    # HashJoinExecutor takes no residual condition (build asserts the literal true); the semi / anti variants do
+    forced_true = set()
+
+    def hash_conds(x):
+        if isinstance(x, str):
+            return
+        if x[0] == "hashjoin" and isinstance(x[1][1], str) and x[1][1].startswith("?"):
+            t = ty if x[1][0] == "?type" else x[1][0]
+            if t not in ("semi", "anti"):
+                forced_true.add(x[1][1])
+        for y in x[1]:
+            hash_conds(y)
+    hash_conds(lhs)
+    hash_conds(rhs)
+    nk = rng.randint(1, 2)
     for v in sorted(vs):
         if v in rels or v == "?type":
             continue
         cols = sc.get(v, [])
+        if v in forced_true:
+            jsub[v] = "true"
+            env.append((v, "ex CTrue"))
+            continue
+        if re.fullmatch(r"\?[lr]\d", v):
+            # a join key: a column of the one input it may read (or a constant when it may read none)
+            if cols:
+                t, i = rng.choice(cols)
+                jsub[v] = {"c": [t, i]}
+                env.append((v, f"ex (CCol {cid(t, i)})"))
+            else:
+                k = rng.choice([0, 1, 2])
+                jsub[v] = str(k)
+                env.append((v, f"ex (CInt {k})"))
+            continue
+        if v in ("?lkeys", "?rkeys"):
+            if not cols:
+                return None
+            ks = [rng.choice(cols) for _ in range(nk)]
+            jsub[v] = ["list"] + [{"c": [t, i]} for t, i in ks]
+            env.append((v, "MList " + clist(f"ex (CCol {cid(t, i)})" for t, i in ks)))
+            continue
         if v in ("?limit",):
             k = rng.choice(["null", "0", "1", "2", "3"])
             jsub[v] = k
